@@ -49,11 +49,17 @@ func loadKnown() (kf []knownFinding) {
 // obligations filed under that one (the DNS answer is only right if Match,
 // the precedence rules and $badfilter handling are).
 var propDeps = map[string][]string{
-	"C02": {"C04", "C06", "C07", "C08", "C11"},
+	"C02": {"C01", "C04", "C06", "C07", "C08", "C11"}, // the reported network rules come from the network engine's lookup
 	"C01": {"C04", "C11"},
-	"C19": {"C04"},
-	"C13": {"C04"}, // purity of a query includes the frames of the whole Match chain
+	"C19": {"C04", "C11"}, // "every rule they return truly matches": what an index retrieves is the line that was scanned there
+	"C13": {"C04", "C11"}, // purity of a query includes the frames of the whole Match chain and of retrieval
 	"C16": {"C06"}, // the cosmetic option is derived from the verdict
+	// "however the rules are split across lists": the verdict is computed from what the lookup returns,
+	// and the lookup from what the scanner delivers
+	"C06": {"C01", "C04", "C11"},
+	"C09": {"C10"}, // "the same response code / record type / value": what the parser made of the rule texts
+	"C15": {"C11"}, // "for every set of cosmetic rules": the engine is filled from the storage scanner
+	"C18": {"C11"}, // the DNS engine finds a hosts line again through its storage index
 }
 
 func hasProp(ps []string, p string) bool {
